@@ -842,6 +842,41 @@ def extract_mutation_loads_pass_database(repo):
     return ok
 
 
+def extract_new_models_decided_by(repo):
+    """EvolveAppTask.prepare: `use_migrations = supports_migrations and <name> == UpgradeMethod.MIGRATIONS` - which
+    name decides whether the tables of new models are created by the package or left to the app's migrations"""
+    tree = ast.parse(_src(repo, 'django_evolution/evolve/evolve_app_task.py'))
+    cls = _find_class(tree, 'EvolveAppTask')
+    fn = _find_func(cls, 'prepare')
+    found = []
+    for n in ast.walk(fn):
+        if isinstance(n, ast.Assign) and len(n.targets) == 1 and ast.unparse(n.targets[0]) == 'use_migrations':
+            for c in ast.walk(n.value):
+                if isinstance(c, ast.Compare) and len(c.ops) == 1 and isinstance(c.ops[0], ast.Eq) and \
+                        ast.unparse(c.comparators[0]) == 'UpgradeMethod.MIGRATIONS':
+                    found.append(ast.unparse(c.left))
+    if len(found) != 1:
+        raise ExtractError('EvolveAppTask.prepare: expected one `use_migrations = ... <x> == UpgradeMethod.MIGRATIONS`')
+    return found[0]
+
+
+def extract_create_models_pass_database(repo):
+    """every sql_create_models(...) call of EvolveAppTask passes db_name=database_name, with database_name taken from
+    evolver.database_name in that method"""
+    tree = ast.parse(_src(repo, 'django_evolution/evolve/evolve_app_task.py'))
+    cls = _find_class(tree, 'EvolveAppTask')
+    sites = []
+    for fn in [n for n in ast.walk(cls) if isinstance(n, ast.FunctionDef)]:
+        for n in ast.walk(fn):
+            if isinstance(n, ast.Call) and ast.unparse(n.func) == 'sql_create_models':
+                kw = {k.arg: ast.unparse(k.value) for k in n.keywords}
+                src = sorted(set(ast.unparse(a.value) for a in ast.walk(fn)
+                                 if isinstance(a, ast.Assign) and len(a.targets) == 1 and
+                                 ast.unparse(a.targets[0]) == kw.get('db_name', '')))
+                sites.append((kw.get('db_name'), src))
+    return bool(sites) and all(db == 'database_name' and src == ['evolver.database_name'] for db, src in sites)
+
+
 def extract_deleted_apps_lookup(repo):
     """ProjectSignature.diff finds the counterpart of a stored app with get_app_sig (id first, then legacy label):
     'get_app_sig'; a plain dictionary lookup by id -> 'by_id'; else 'unknown'"""
@@ -989,6 +1024,14 @@ def regenerate(repo, outdir):
     flags['mutation_loads_pass_database'] = mlp
     parts.append('/-- EvolveAppTask.prepare (preview) and _build_batches (execution) load the mutations for evolver.database_name -/')
     parts.append('def mutationLoadsPassDatabase : Bool := ' + ('true' if mlp else 'false'))
+    nmd = extract_new_models_decided_by(repo)
+    flags['new_models_decided_by'] = nmd
+    parts.append('/-- the value EvolveAppTask.prepare compares with UpgradeMethod.MIGRATIONS to leave new models to migrations -/')
+    parts.append('def newModelsDecidedBy : String := ' + lean_str(nmd))
+    cmp_ = extract_create_models_pass_database(repo)
+    flags['create_models_pass_database'] = cmp_
+    parts.append('/-- every sql_create_models call of EvolveAppTask generates its SQL for evolver.database_name -/')
+    parts.append('def createModelsPassDatabase : Bool := ' + ('true' if cmp_ else 'false'))
     aie = extract_app_sig_is_empty(repo)
     flags['app_sig_is_empty'] = aie
     parts.append('/-- what AppSignature.is_empty() looks at: "models" (no model entries left), or what the source says instead -/')
